@@ -15,7 +15,7 @@ CONSTANTS Mode, Big
 VARIABLES c, phase
 
 Lens == IF Big THEN {127, 128, 255, 256, 32767, 32768, 65535, 65536, 70000} ELSE {255, 256, 32767, 32768, 65535, 65536}
-EncCases == {[f |-> f, shape |-> sh, n |-> n] : f \in Formats, sh \in Shapes, n \in Lens}
+EncCases == {[f |-> f, shape |-> sh, n |-> n] : f \in Formats, sh \in Shapes \ {"strs"}, n \in Lens} \cup {[f |-> f, shape |-> "strs", n |-> n] : f \in Formats, n \in {400, 1000}}
 
 Null(f) == CASE f = "cbor" -> <<246>> [] f = "msgpack" -> <<192>> [] f = "ubjson" -> <<90>> [] f = "bson" -> <<>>
 Key5(f) == CASE f = "cbor" -> <<101>> [] f = "msgpack" -> <<165>> [] f = "ubjson" -> <<85, 5>> [] f = "bson" -> <<10>>
@@ -35,8 +35,9 @@ Short(f, sh, n, fm) == IF fm.trailer # <<>> /\ f # "bson"
                        THEN [f |-> f, shape |-> sh, n |-> n, head |-> Concrete(fm.head), prog |-> Program(f, sh, fm, n), trailer |-> <<>>, expect |-> <<"err">>, variant |-> "no-trailer"]
                        ELSE [f |-> f, shape |-> sh, n |-> n, head |-> Concrete(fm.head), prog |-> Program(f, sh, fm, n - 1), trailer |-> fm.trailer, expect |-> <<"err">>, variant |-> "short"]
 Bad(f, sh, n, fm) == [f |-> f, shape |-> sh, n |-> n, head |-> Concrete(fm.head), prog |-> Program(f, sh, fm, n), trailer |-> fm.trailer, expect |-> <<"err">>, variant |-> "bad-length-field"]
+DecShapes == Shapes \ {"strs"}
 DecCases == UNION {{Good(f, sh, n, fm) : fm \in Forms(f, sh, n)} \cup {Short(f, sh, n, fm) : fm \in {x \in Forms(f, sh, n) : x.unit > 0}}
-                   \cup {Bad(f, sh, n, fm) : fm \in BadForms(f, sh, n)} : f \in Formats, sh \in Shapes, n \in Lens}
+                   \cup {Bad(f, sh, n, fm) : fm \in BadForms(f, sh, n)} : f \in Formats, sh \in DecShapes, n \in Lens}
 Cases == IF Mode = "enc" THEN EncCases ELSE DecCases
 Init == phase = 0 /\ c = [f |-> ""]
 Next == phase = 0 /\ phase' = 1 /\ c' \in Cases
